@@ -466,7 +466,10 @@ func main() {
 	}
 	o := hlib.NewOut(cfg.Out)
 	defer o.Close()
-	watchdog(o, 60*time.Second)
+	if mode != "conc" {
+		// conc: every worker process has its own no-progress watchdog and a deadline
+		watchdog(o, 60*time.Second)
+	}
 
 	// shards: the runner gives shard s the seed `seed + 1000003*s`
 	shards := 1
